@@ -192,7 +192,15 @@ func (sn *simNet) get(ni kademlia.NodeInfo, req kademlia.GetReq) (kademlia.GetRe
 	} else {
 		res.Closer = sn.advList(n, req.Key)
 		if sn.g.Chance(1, 2) {
-			res.Value = []byte("INVALID-" + ni.ID.String()[:6])
+			// values the caller's validator rejects, of several shapes (the empty one is non-nil: it is a value)
+			switch sn.g.Intn(4) {
+			case 0:
+				res.Value = []byte{}
+			case 1:
+				res.Value = []byte("VALID") // a proper prefix of what the validator wants
+			default:
+				res.Value = []byte("INVALID-" + ni.ID.String()[:6])
+			}
 		}
 	}
 	sn.answers[ni.ID] = true
